@@ -3,6 +3,7 @@ package main
 import (
 	"fmt"
 	"runtime/pprof"
+	"strconv"
 	"go/token"
 	"os"
 	"path/filepath"
@@ -77,6 +78,9 @@ type harnessResult struct {
 	boundHit    bool
 	assertsSeen int
 }
+
+// VERIF_BUDGET_S=<seconds>: per-harness wall-clock budget; exceeding it makes the harness inconclusive
+var budgetS = func() int { n, _ := strconv.Atoi(os.Getenv("VERIF_BUDGET_S")); return n }()
 
 // developer aid: VERIF_STOPON=<text> ends the exploration at the first violation containing text
 var stopOn = os.Getenv("VERIF_STOPON")
@@ -385,6 +389,13 @@ func (e *engine) explore(h *harnessSpec) *harnessResult {
 					stop = true
 				}
 				if len(res.violations) >= 60 {
+					stop = true
+				}
+				if budgetS > 0 && time.Since(t0).Seconds() > float64(budgetS) {
+					if !res.boundHit {
+						res.inconcl = append(res.inconcl, fmt.Sprintf("wall-clock budget of %d s reached after %d paths: the decision tree was not exhausted", budgetS, res.paths))
+					}
+					res.boundHit = true
 					stop = true
 				}
 				if stopOn != "" {
